@@ -359,7 +359,22 @@ fn run_case(case: &[String]) -> String {
                 Method::PRACK, Method::OPTIONS, Method::SUBSCRIBE, Method::NOTIFY, Method::PUBLISH, Method::INFO, Method::REFER,
             ];
             let k = known.iter().position(|x| *x == m);
-            format!("P={}\tK={}", hex(m.to_string().as_bytes()), k.map(|i| i.to_string()).unwrap_or("-".into()))
+            let kof = |m: &Method| known.iter().position(|x| x == m).map(|i| i.to_string()).unwrap_or("-".into());
+            // the token on the wire and back: as the request line's method, in CSeq and in RAck
+            let mut h = Headers::new();
+            h.insert_named(&CSeq::new(7, m.clone()));
+            h.insert_named(&RAck::new(1, 7, m.clone()));
+            let hl = h.iter().map(|(n, v)| format!("{}: {}", n.as_print_str(), v)).collect::<Vec<_>>().join("\r\n");
+            let msg = format!("{} sip:bob@example.org SIP/2.0\r\n{}\r\n\r\n", m, hl);
+            let back = match parse_complete(Parser::default(), msg.as_bytes()) {
+                Ok(CompleteItem::Sip { line: MessageLine::Request(l), headers, .. }) => {
+                    let c = headers.get_named::<CSeq>().map(|c| format!("{}/{}", hex(c.method.to_string().as_bytes()), kof(&c.method))).unwrap_or("ERR".into());
+                    let r = headers.get_named::<RAck>().map(|c| format!("{}/{}", hex(c.method.to_string().as_bytes()), kof(&c.method))).unwrap_or("ERR".into());
+                    format!("{}/{},{},{}", hex(l.method.to_string().as_bytes()), kof(&l.method), c, r)
+                }
+                _ => "UNPARSED".to_string(),
+            };
+            format!("P={}\tK={}\tR={}", hex(m.to_string().as_bytes()), k.map(|i| i.to_string()).unwrap_or("-".into()), back)
         }
         "typed" => run_typed(case[3].as_str(), case[4].as_str()),
         "num" => {
